@@ -917,7 +917,7 @@ func (engine *Engine) readConnBlocking(conn *Conn, parser *Parser, decrease func
 		if err != nil {
 			return
 		}
-		_ = parserCloser.Parse((*pbuf)[:n])
+		errParse := parserCloser.Parse((*pbuf)[:n])
 		if conn.Trasfered {
 			parser.onClose = nil
 			parser.CloseAndClean(nil)
@@ -928,6 +928,13 @@ func (engine *Engine) readConnBlocking(conn *Conn, parser *Parser, decrease func
 			parser.onClose = nil
 			parser.CloseAndClean(nil)
 			parser = nil
+		}
+		// a parse error ends the connection; it is looked at after the
+		// hand-over above, so that the cleanup reaches the upgraded connection.
+		if errParse != nil {
+			err = errParse
+			logging.Debug("parser.Read failed: %v", err)
+			return
 		}
 	}
 }
@@ -976,11 +983,7 @@ func (engine *Engine) readTLSConnBlocking(conn *Conn, rconn net.Conn, tlsConn *t
 				return
 			}
 			if nread > 0 {
-				err = parserCloser.Parse((*pbuf)[:nread])
-				if err != nil {
-					logging.Debug("parser.Read failed: %v", err)
-					return
-				}
+				errParse := parserCloser.Parse((*pbuf)[:nread])
 				if conn.Trasfered {
 					parser.onClose = nil
 					parser.CloseAndClean(nil)
@@ -991,6 +994,13 @@ func (engine *Engine) readTLSConnBlocking(conn *Conn, rconn net.Conn, tlsConn *t
 					parser.onClose = nil
 					parser.CloseAndClean(nil)
 					parser = nil
+				}
+				// looked at after the hand-over above, so that the cleanup
+				// reaches the upgraded connection.
+				if errParse != nil {
+					err = errParse
+					logging.Debug("parser.Read failed: %v", err)
+					return
 				}
 			}
 			if nread == 0 {
